@@ -1,6 +1,9 @@
 (* C18 model: SearchManager.requests + Timer objects (tasks.py) + the ticket generator.
    The ticket step and the wishlist-timeout decision are GENERATED (SlskGen.TicketGen, from
-   utils.py / search/manager.py / constants.py).  Definitions only; executable (vm_compute).
+   utils.py / search/manager.py / constants.py); the guards and effects of remove_request,
+   _timeout_search_request, _attach_request_timer_and_emit, the wishlist loop and Timer._unset_task are
+   GENERATED flags (SlskGen.SearchGen); the remaining Timer methods and _on_peer_search_reply are pinned
+   literally by the same translator.  Definitions only; executable (vm_compute).
 
    Atomic segments (asyncio runs everything between two suspension points atomically; none of
    the segments below contains a suspension point when the event listeners are plain
@@ -17,7 +20,7 @@
      Lag dt           time passes while work is due (a slow synchronous segment elsewhere)
    A request is identified by its ticket (exact as long as the generator has not wrapped). *)
 From Coq Require Import ZArith List Bool.
-From SlskGen Require Import TicketGen.
+From SlskGen Require Import TicketGen SearchGen.
 Import ListNotations.
 Open Scope Z_scope.
 
@@ -126,8 +129,8 @@ Fixpoint quiet_until (s : state) (t : Z) (n : nat) : bool :=
 
 Definition step (s : state) (e : event) : state :=
   match e with
-  | Search tau => register s tau (Z.ltb 0 tau)
-  | Wish setting => let tau := wishlist_timeout setting (interval s) in register s tau (negb (Z.eqb tau 0))
+  | Search tau => register s tau (attach_with_timer tau)
+  | Wish setting => let tau := wishlist_timeout setting (interval s) in register s tau (wish_with_timer tau)
   | SearchAborted => set_gen s (ticket_step TICKET_INITIAL (gen s))
   | SetInterval i => set_interval s (Some i)
   | Reply tk id => if memz tk (requests s) then emit s (OResult tk id) else s
@@ -135,7 +138,7 @@ Definition step (s : state) (e : event) : state :=
       (* requests.pop(ticket); then the popped request's timer (if any) is cancelled *)
       if memz tk (requests s) then
         let s := emit (set_requests s (delz tk (requests s))) (ORemoveOk tk) in
-        if has_timer s tk then cancel_timer s tk else s
+        if remove_cancels_timer then (if has_timer s tk then cancel_timer s tk else s) else s
       else emit s (ORemoveKeyErr tk)
   | Cancel tk => if has_timer s tk then cancel_timer s tk else s
   | Resched tk tau =>
@@ -157,7 +160,7 @@ Definition step (s : state) (e : event) : state :=
                  else del self.requests[ticket]; emit Removed *)
               if memz (owner t) (requests s)
               then finish_task (emit (set_requests s (delz (owner t) (requests s))) (ORemoved (owner t) (now s))) i
-              else finish_task s i
+              else if timeout_guarded then finish_task s i else finish_task (emit s (OErrKey (owner t) (now s))) i
             else s
         | Fin _ => s
         end
@@ -170,7 +173,8 @@ Definition step (s : state) (e : event) : state :=
             (* Timer._unset_task: self._task = None only when the handle still is this task *)
             let s' := set_tasks s (updn (tasks s) i (mkTask (owner t) (deadline t) (Fin false))) in
             match handle s (owner t) with
-            | Some j => if Nat.eqb j i then set_handle s' (upd (handle s) (owner t) None) else s'
+            | Some j => if unset_only_own then (if Nat.eqb j i then set_handle s' (upd (handle s) (owner t) None) else s')
+                        else set_handle s' (upd (handle s) (owner t) None)
             | None => s'
             end
         | _ => s
